@@ -99,6 +99,10 @@ FunProbes ==
             <<P(Call("cls", <<I(1)>>)), P(Call("cls", <<I(5)>>)), P(Call("cls", <<I(9)>>))>>, FALSE),
       Probe("implicit-return-match", <<Fun("fact", <<Param("x", "Int", Absent)>>, "Int", <<>>, <<Match(V("x"), <<Arm(I(0), <<Expr(I(1))>>), Arm(Var("n"), <<Expr(Bin("*", V("n"), Call("fact", <<Bin("-", V("n"), I(1))>>)))>>)>>)>>)>>, <<>>,
             <<P(Call("fact", <<I(0)>>)), P(Call("fact", <<I(4)>>))>>, FALSE),
+      Probe("match-as-value", <<Fun("classify", <<Param("x", "Int", Absent)>>, "Int", <<>>,
+                                    <<Match(V("x"), <<Arm(I(0), <<Expr(I(10))>>), Arm(I(1), <<Expr(I(20))>>), Arm(I(2), <<Expr(Bin("+", V("x"), I(30)))>>), Arm(I(3), <<Expr(I(40))>>), Arm(Wild, <<Expr(I(50))>>)>>)>>)>>, <<>>,
+            <<P(Call("classify", <<I(0)>>)), P(Call("classify", <<I(2)>>)), P(Call("classify", <<I(3)>>)), P(Call("classify", <<I(9)>>)),
+              Def("w", TRUE, "Int", IfE(Bin(">", Call("classify", <<I(1)>>), I(15)), I(1), I(2))), P(V("w"))>>, FALSE),
       Probe("locals-and-loop", <<Fun("sum_to", <<Param("n", "Int", Absent)>>, "Int", <<>>, <<DI("acc", 0), For("i", Range(I(1), V("n"), TRUE, Absent), <<Assign("acc", Bin("+", V("acc"), V("i")))>>), Expr(V("acc"))>>)>>, <<>>,
             <<P(Call("sum_to", <<I(4)>>)), P(Call("sum_to", <<I(0)>>))>>, FALSE),
       Probe("defaults", <<Fun("add", <<Param("x", "Int", Absent), Param("y", "Int", I(10)), Param("z", "Int", I(100))>>, "Int", <<>>, <<Expr(Bin("+", V("x"), Bin("+", V("y"), V("z"))))>>)>>, <<>>,
